@@ -66,6 +66,24 @@ def boot():
     import mqtt.client.factory as factory
     import mqtt.error as mqerror
 
+    # Failures nobody handles (e.g. an exception inside the keepalive LoopingCall, which
+    # Twisted turns into an errback of a Deferred the client discards) are logged by
+    # Twisted when that Deferred is released - with reference counting that is at once,
+    # inside the dispatch that caused it.  Observe them instead of printing them.
+    from twisted.logger import globalLogBeginner
+
+    def _observer(event):
+        f = event.get("log_failure")
+        if f is None:
+            return
+        w = reactor.world
+        if w is not None:
+            w._unhandled(f)
+    try:
+        globalLogBeginner.beginLoggingTo([_observer], redirectStandardIO=False, discardBuffer=True)
+    except Exception:
+        pass
+
     jitter = JitterSource()
     interval.random = jitter
     # the class attribute must be *our* reactor's callLater
